@@ -23,6 +23,8 @@ type prop struct {
 	eval func(op string, args []string) string
 	// timeout per case (0 = default)
 	timeout time.Duration
+	// pure: the ops are plain function calls; other library calls are made before each case (history.go)
+	pure bool
 }
 
 var props = map[string]*prop{}
@@ -47,6 +49,9 @@ func safeEval(p *prop, op string, args []string) string {
 				ch <- res{"PANIC"}
 			}
 		}()
+		if p.pure && os.Getenv("VH_NO_HISTORY") == "" {
+			pollute(op, args)
+		}
 		ch <- res{p.eval(op, args)}
 	}()
 	to := p.timeout
